@@ -758,6 +758,7 @@ type c18case struct {
 	// schedule: chooser is called with the lists of startable / parked thread indices
 	choose func(startable, parked []int, stepNo int, th []*c18thr) c18step
 	class  string
+	lastResults [][]int64 // per operation, filled by c18runCase
 }
 
 func c18report(c *c18case, sig, what string, detail map[string]interface{}) {
@@ -927,6 +928,9 @@ func c18runCase(clean, known *vw.Trace, c *c18case) {
 			}
 		}
 	}
+	for _, th := range e.thr {
+		c.lastResults = append(c.lastResults, th.result)
+	}
 	// final scan + quiescence monitors
 	{
 		var op vw.L
@@ -980,8 +984,8 @@ func c18runCase(clean, known *vw.Trace, c *c18case) {
 	}
 	var spans []span
 	for _, th := range e.thr {
-		if th.op.kind == c18GCGone || len(th.events) == 0 {
-			continue // GCGone takes no lock by design (carved out, see notes/C18.md)
+		if len(th.events) == 0 {
+			continue
 		}
 		sp := span{th: th, first: th.events[0].seq, lo: th.events[len(th.events)-1].seq, mut0: th.events[0].mut, mutN: th.events[len(th.events)-1].mut}
 		spans = append(spans, sp)
@@ -993,6 +997,21 @@ func c18runCase(clean, known *vw.Trace, c *c18case) {
 				continue
 			}
 			if a.first <= b.lo && b.first <= a.lo && !(c18isReader(a.th.op.kind) && c18isReader(b.th.op.kind)) {
+				if a.th.op.kind == c18GCGone || b.th.op.kind == c18GCGone {
+					// since fix ab74e69 the gone half of GCTracts takes the WRITE lock like everybody else
+					other := a.th.op.kind
+					if other == c18GCGone {
+						other = b.th.op.kind
+					}
+					sig := "gc-gone-interleaved-with-op=" + c18opNames[other]
+					if c18isLong(other) {
+						sig = "gc-gone-interleaved-with-copy-in"
+					}
+					vw.Stat("mon.gc-gone-interleaved", 1)
+					c18reportOnce(c, sig, "GCTracts(gone) removed a tract inside the section of another operation on the same tract (it must take the tract lock)",
+						map[string]interface{}{"ops": c18opsDesc(c)})
+					continue
+				}
 				vw.Stat("mon.sections-interleave", 1)
 				c18reportOnce(c, fmt.Sprintf("sections-interleave-%s-%s", c18opNames[a.th.op.kind], c18opNames[b.th.op.kind]),
 					"the Disk-call sections of two operations on the same tract overlap and they are not both readers",
@@ -1011,14 +1030,8 @@ func c18runCase(clean, known *vw.Trace, c *c18case) {
 				map[string]interface{}{"ops": c18opsDesc(c), "stamp": th.op.a2 - 1, "writesApplied": th.events[0].wr})
 		}
 	}
-	hasGone := false
-	for _, th := range e.thr {
-		if th.op.kind == c18GCGone {
-			hasGone = true
-		}
-	}
 	for _, sp := range spans {
-		if c18isReader(sp.th.op.kind) && sp.mut0 != sp.mutN && !hasGone {
+		if c18isReader(sp.th.op.kind) && sp.mut0 != sp.mutN {
 			vw.Stat("mon.read-mixed-state", 1)
 			c18reportOnce(c, "read-mixed-state-op="+c18opNames[sp.th.op.kind],
 				"the tract changed on disk between the first and the last Disk call of a reader: its version and data belong to different states",
@@ -1186,7 +1199,7 @@ func c18genOp(r *vw.Rng, tract int, init c18init) c18op {
 		return b
 	}
 	switch k := r.PickInt(c18Create, c18Write, c18Write, c18Write, c18Read, c18Read, c18Read, c18Stat, c18Stat, c18SetVersion, c18SetVersion, c18SetVersion,
-		c18Pull, c18Pull, c18Pull, c18GCOld, c18GCGone, c18Check, c18Check); k {
+		c18Pull, c18Pull, c18Pull, c18GCOld, c18GCGone, c18GCGone, c18Check, c18Check); k {
 	case c18Create:
 		return c18op{kind: k, tract: tract, a1: int64(r.Range(0, 2)), data: data()}
 	case c18Write:
@@ -1288,35 +1301,51 @@ func TestVerifC18(t *testing.T) {
 			tracts []c18init
 			ops    []c18op
 			prio   []int
+			custom func(parked []int, th []*c18thr) (int, bool) // optional: which parked operation to release next
 		}
 		ds := []directed{
 			// a conditional bump (stamp seen before any write) queues behind a reader together with a write
 			{"condbump-behind-write", []c18init{pres},
-				[]c18op{{kind: c18Read, a1: 2, a2: 2}, {kind: c18Write, a1: 2, a2: 0, data: d}, {kind: c18SetVersion, a1: 3, a2: 1}}, []int{0, 1, 2}},
+				[]c18op{{kind: c18Read, a1: 2, a2: 2}, {kind: c18Write, a1: 2, a2: 0, data: d}, {kind: c18SetVersion, a1: 3, a2: 1}}, []int{0, 1, 2}, nil},
 			{"condbump-before-write", []c18init{pres},
-				[]c18op{{kind: c18Read, a1: 2, a2: 2}, {kind: c18SetVersion, a1: 3, a2: 1}, {kind: c18Write, a1: 2, a2: 0, data: d}}, []int{0, 1, 2}},
+				[]c18op{{kind: c18Read, a1: 2, a2: 2}, {kind: c18SetVersion, a1: 3, a2: 1}, {kind: c18Write, a1: 2, a2: 0, data: d}}, []int{0, 1, 2}, nil},
 			{"condbump-behind-two-writes", []c18init{pres},
-				[]c18op{{kind: c18Stat, a1: 2}, {kind: c18Write, a1: 2, a2: 0, data: d}, {kind: c18Write, a1: 2, a2: 1, data: d}, {kind: c18SetVersion, a1: 3, a2: 2}}, []int{0, 1, 2, 3}},
+				[]c18op{{kind: c18Stat, a1: 2}, {kind: c18Write, a1: 2, a2: 0, data: d}, {kind: c18Write, a1: 2, a2: 1, data: d}, {kind: c18SetVersion, a1: 3, a2: 2}}, []int{0, 1, 2, 3}, nil},
 			// contention on two tracts: the unlock of tract 1 must wake the waiter of tract 1, not only a waiter of tract 0
 			{"two-tracts-wakeup", []c18init{pres, pres},
-				[]c18op{{kind: c18Write, tract: 0, a1: 2, data: d}, {kind: c18Read, tract: 0, a1: 2, a2: 2}, {kind: c18Write, tract: 1, a1: 2, data: d}, {kind: c18Read, tract: 1, a1: 2, a2: 2}}, []int{2, 3, 0, 1}},
+				[]c18op{{kind: c18Write, tract: 0, a1: 2, data: d}, {kind: c18Read, tract: 0, a1: 2, a2: 2}, {kind: c18Write, tract: 1, a1: 2, data: d}, {kind: c18Read, tract: 1, a1: 2, a2: 2}}, []int{2, 3, 0, 1}, nil},
 			{"two-tracts-wakeup-writers", []c18init{pres, pres},
-				[]c18op{{kind: c18Write, tract: 0, a1: 2, data: d}, {kind: c18SetVersion, tract: 0, a1: 3}, {kind: c18Write, tract: 1, a1: 2, data: d}, {kind: c18Stat, tract: 1, a1: 2}, {kind: c18Check, tract: 1, a1: 2}}, []int{2, 0, 3, 4, 1}},
+				[]c18op{{kind: c18Write, tract: 0, a1: 2, data: d}, {kind: c18SetVersion, tract: 0, a1: 3}, {kind: c18Write, tract: 1, a1: 2, data: d}, {kind: c18Stat, tract: 1, a1: 2}, {kind: c18Check, tract: 1, a1: 2}}, []int{2, 0, 3, 4, 1}, nil},
 			// a long copy-in: everybody else fails fast, on the other tract nobody notices
 			{"pull-vs-all", []c18init{pres, pres},
-				[]c18op{{kind: c18Pull, tract: 0, a1: 3, sources: []c18src{{core.NoError, c18bytes(5, 6)}}}, {kind: c18Read, tract: 0, a1: 2, a2: 2}, {kind: c18Write, tract: 0, a1: 2, data: d}, {kind: c18Read, tract: 1, a1: 2, a2: 2}}, []int{3, 0, 1, 2}},
+				[]c18op{{kind: c18Pull, tract: 0, a1: 3, sources: []c18src{{core.NoError, c18bytes(5, 6)}}}, {kind: c18Read, tract: 0, a1: 2, a2: 2}, {kind: c18Write, tract: 0, a1: 2, data: d}, {kind: c18Read, tract: 1, a1: 2, a2: 2}}, []int{3, 0, 1, 2}, nil},
 			// PackTracts is a long writer on the destination chunk: readers, writers, bumps and the scrubber of
 			// the chunk fail fast (the scrubber skips), the other tract is untouched
 			{"pack-vs-all", []c18init{{present: true, rs: true, data: c18bytes(4, 5, 6)}, pres},
 				[]c18op{{kind: c18Pack, tract: 100, a1: 5, pack: []c18packSrc{{0, 2, []c18src{{core.ErrRPC, nil}, {core.NoError, c18bytes(8, 9)}}}, {2, 2, []c18src{{core.NoError, c18bytes(3, 3)}}}}},
 					{kind: c18Read, tract: 100, a1: core.RSChunkVersion, a2: 2}, {kind: c18Write, tract: 100, a1: core.RSChunkVersion, data: d},
-					{kind: c18Scrub, tract: 100}, {kind: c18SetVersion, tract: 100, a1: 2}, {kind: c18Stat, tract: 1, a1: 2}}, []int{5, 0, 1, 2, 3, 4}},
+					{kind: c18Scrub, tract: 100}, {kind: c18SetVersion, tract: 100, a1: 2}, {kind: c18Stat, tract: 1, a1: 2}}, []int{5, 0, 1, 2, 3, 4}, nil},
 			{"pack-behind-readers", []c18init{{present: true, rs: true, data: c18bytes(4, 5, 6)}},
 				[]c18op{{kind: c18Read, tract: 100, a1: core.RSChunkVersion, a2: 3}, {kind: c18Scrub, tract: 100},
 					{kind: c18Pack, tract: 100, a1: 3, pack: []c18packSrc{{0, 3, []c18src{{core.NoError, c18bytes(1, 1, 1)}}}}},
-					{kind: c18Read, tract: 100, a1: core.RSChunkVersion, a2: 3}}, []int{0, 1, 2, 3}},
+					{kind: c18Read, tract: 100, a1: core.RSChunkVersion, a2: 3}}, []int{0, 1, 2, 3}, nil},
+			// GC gone against a long copy-in parked at the Delete of its own removeTract. Before fix ab74e69 the gone path took
+			// no lock, deleted the tract here and PullTract returned ErrNoSuchTract (serial_equivalence_gcgone_refuted);
+			// now it finds the long writer and skips. A non-serial outcome is a violation.
+			{name: "gone-vs-pull", tracts: []c18init{pres},
+				ops: []c18op{{kind: c18Pull, tract: 0, a1: 3, sources: []c18src{{core.NoError, c18bytes(5, 6)}}}, {kind: c18GCGone, tract: 0}},
+				prio: []int{0, 1},
+				custom: func(parked []int, th []*c18thr) (int, bool) {
+					if th[0].state == c18stParked && th[0].park != c18ckDelete {
+						return 0, true
+					}
+					if th[1].state == c18stParked {
+						return 1, true
+					}
+					return 0, th[0].state == c18stParked
+				}},
 			{"scrub-vs-write", []c18init{pres},
-				[]c18op{{kind: c18Scrub, tract: 0}, {kind: c18Write, tract: 0, a1: 2, data: d}, {kind: c18Scrub, tract: 0}}, []int{0, 1, 2}},
+				[]c18op{{kind: c18Scrub, tract: 0}, {kind: c18Write, tract: 0, a1: 2, data: d}, {kind: c18Scrub, tract: 0}}, []int{0, 1, 2}, nil},
 		}
 		for _, dc := range ds {
 			id := "dir-" + dc.name
@@ -1329,6 +1358,11 @@ func TestVerifC18(t *testing.T) {
 				if len(startable) > 0 {
 					return c18step{thread: startable[0], start: true}
 				}
+				if dc.custom != nil {
+					if k, ok := dc.custom(parked, th); ok {
+						return c18step{thread: k}
+					}
+				}
 				for _, p := range dc.prio {
 					for _, q := range parked {
 						if p == q {
@@ -1339,6 +1373,14 @@ func TestVerifC18(t *testing.T) {
 				return c18step{thread: parked[0]}
 			}
 			c18runCase(tr, known, c)
+			if dc.name == "gone-vs-pull" && c.lastResults != nil && len(c.lastResults[0]) > 0 {
+				vw.Stat("obs.gone-vs-pull.pull-result="+c18errName(c.lastResults[0][0]), 1)
+				if core.Error(c.lastResults[0][0]) != core.NoError {
+					c18reportOnce(c, "gc-gone-interleaved-with-copy-in",
+						"PullTract whose source delivered returned "+c18errName(c.lastResults[0][0])+" because GCTracts(gone) deleted the tract between its lookup and its Delete: no serial order of the two gives that",
+						map[string]interface{}{"ops": c18opsDesc(c)})
+				}
+			}
 			vw.Stat("dir.cases", 1)
 			vw.Distinct(id)
 		}
